@@ -462,6 +462,29 @@ inline void enumerateDetailed(bool thorough, Mode mode, const std::function<void
       g(t);
     }
   };
+  // (m) medium-size family (12..40 cells on 4..10 rows): every third member of the grid at the default parameters, every
+  // ninth also with multi-row reordering and wide shift/search windows
+  {
+    MediumCfg mc;
+    mc.stride = thorough ? 1 : 3;
+    int k = 0;
+    enumerateMedium(mc, [&](const Spec &s) {
+      Spec u = s;
+      u.aux = 0;
+      f0(u);
+      if (k++ % 3 == 0) {
+        Spec v = u;
+        v.devs.push_back({F_reorderingMaxNbCells, 4});
+        v.devs.push_back({F_reorderingNbRows, 2});
+        v.devs.push_back({F_shiftMaxNbCells, 30});
+        v.devs.push_back({F_lsNeighbours, 6});
+        f0(v);
+        Spec w = u;  // small shift windows: the cells of a row group are cut into several sub-problems
+        w.devs.push_back({F_shiftMaxNbCells, 12});
+        f0(w);
+      }
+    });
+  }
   // (a) top level: base cross product + deviations
   Cfg a;
   a.rhs = {2};
@@ -569,6 +592,13 @@ inline void enumerateDetailed(bool thorough, Mode mode, const std::function<void
         v.devs.push_back({F_reorderingMaxNbCells, 3});
         v.devs.push_back({F_reorderingNbRows, 2});
         f(v);
+        // the same tuple behind a fixed cell of lower index (per-cell vectors of the movable cells are compacted by the
+        // legalizer: an index shift between circuit cells and legalizer cells)
+        Spec w = s;
+        CellSpec pad; pad.w = 1; pad.h = 2; pad.x = s.rows[0].maxX + 3; pad.y = s.rows[0].minY; pad.fixed = true; pad.polarity = 0;
+        w.cells.insert(w.cells.begin(), pad);
+        for (auto &nt : w.nets) for (auto &pp : nt.pins) pp[0] += 1;
+        f(w);
       }
     });
   }
